@@ -358,7 +358,17 @@ def value_satisfies(cfg, name, nid, want, depth=5):
             if value_satisfies(cfg, v.id, d.node, want, depth - 1):
                 continue
             return False
-        # produced here: the test may follow the assignment and precede nid on
-        # every path - not decided by this helper
+        # produced here: fine when the test follows the assignment on EVERY
+        # path from it to nid (no path avoids the branches that assert it and
+        # the statements that give the name another value)
+        sat = {n.id for n in cfg.nodes if n.kind in ("true", "false") and (
+            want(name, cfg.branch_atoms(n.id)) or
+            want(name, cfg.branch_atoms(n.id, inline=True)))}
+        redefs = {x.node for x in cfg.rd.defs_of(name)
+                  if x.node != d.node}
+        if d.node in sat or d.node == nid:
+            return False
+        if cfg.path(d.node, nid, (sat | redefs) - {d.node, nid}) is None:
+            continue
         return False
     return True
